@@ -1,6 +1,7 @@
 import ModVerif.Drv.MainLoop
 import ModVerif.Drv.Zip
+import ModVerif.Drv.ZipSpell
 import ModVerif.Drv.Dirhash
 open ModVerif.Drv
 /-! fallback driver: hand model only -/
-def main : IO Unit := runMain [("zip", Zip.handle), ("dirhash", Dirhash.handle)]
+def main : IO Unit := runMain [("zip", fun op args => (Zip.handle op args) <|> (ZipSpell.handle op args)), ("dirhash", Dirhash.handle)]
